@@ -137,6 +137,25 @@ def run(ctx):
             if not (held or reason):
                 run.finding(Finding(R2, f.id, "%s sized by decoded integer" % kind, site=c.site_of(f, b), detail=str(sorted(map(str, pr)))[:300]))
 
+    # a reader whose error is ignored turns "the input ended" into "keep going": with a decoded count as loop bound that is
+    # work without bound (4 * 10^9 failing reads for a 25-byte message).  Every Reader::read_* result must be propagated.
+    nreads = 0
+    for f in fns:
+        for b, t in f.calls():
+            fn_ = t.get("f") or ""
+            if not (fn_.startswith("grin_core::ser::Reader::read_") or fn_ == "grin_core::ser::Readable::read"):
+                continue
+            nreads += 1
+            g_ = cfg.call_guard(f, b)
+            okp = bool(g_.fail)
+            if okp:
+                par_ = cfg.reach(f, starts=[d_ for (_s, d_) in g_.fail], cut_nodes=cfg.error_return_blocks(f))
+                okp = not any(r in par_ for r in cfg.return_blocks(f)) and not any(f.bbs[x]["t"]["k"] == "call" and (f.bbs[x]["t"].get("f") or "").startswith("grin_core::ser::Reader::read_") for x in par_)
+            run.instance(R2, {"fn": pp.short(f.id), "site": c.site_of(f, b), "kind": "reader error propagated", "call": fn_.split("::")[-1]}, held=okp)
+            if not okp:
+                run.finding(Finding(R2, f.id, "the error of %s is not propagated (the decoder would go on reading past the end of the input)" % fn_.split("::")[-1], site=c.site_of(f, b)))
+    if nreads < 50:
+        run.error("C09.R2: only %d Reader::read_* / Readable::read calls found in decoder scope (floor 50)" % nreads)
     R3 = "C09.R3"
     run.rule(R3, "decoders are pure: no wallet effect is reachable from a decoder entry", floor=20)
     n = 0
